@@ -226,6 +226,12 @@ func runMode(t *testing.T, h *Harness, determinism bool) {
 	distinct := map[uint64]struct{}{}
 	distinctSc := map[uint64]struct{}{}
 	seenClass := map[string]int{}
+	knownClasses := map[string]bool{}
+	for _, c := range strings.Split(os.Getenv("VERIF_KNOWN_CLASSES"), ",") {
+		if c != "" {
+			knownClasses[c] = true
+		}
+	}
 	var fallbackSample json.RawMessage
 	start := time.Now()
 	for i := 0; i < maxRuns; i++ {
@@ -327,7 +333,14 @@ func runMode(t *testing.T, h *Harness, determinism bool) {
 				if seenClass[v.Class] > 1 {
 					continue
 				}
-				rf := minimise(t, h, sc, res, v.Class, seed)
+				var rf *ReplayFile
+				if knownClasses[v.Class] {
+					// a recorded known finding: keep the unminimised execution (cheap)
+					_, raw2, _ := roundTrip(h, sc)
+					rf = &ReplayFile{Property: h.ID, Class: v.Class, Msg: v.Msg, Seed: seed, Scenario: raw2, Tape: res.Tape, Hash: res.Hash, Steps: res.Steps, SimNs: res.SimNs, Log: res.Log}
+				} else {
+					rf = minimise(t, h, sc, res, v.Class, seed)
+				}
 				name := fmt.Sprintf("%s-%s-%d.json", h.ID, sanitize(v.Class), seed)
 				path := filepath.Join(replayDir, name)
 				b, _ := json.MarshalIndent(rf, "", " ")
